@@ -117,6 +117,26 @@ func HarnessC06Derived() {
 	verif.Assert("derived-reparse-equal", a == b)
 }
 
+// HarnessC06PackageOf: the package of a parsed remote source (what a bundle manifest stores), and
+// that package's root as a source, print to strings that parse back to them.
+func HarnessC06PackageOf() {
+	s := verifTemplate(verif.SParam("tmpl", "git::https://example.com/repo.git//m"))
+	src, err := ParseRemoteSource(s)
+	verif.Assume(err == nil)
+	c06Known(src)
+	verif.Reach("derived")
+	pkg := src.Package()
+	p := pkg.String()
+	verif.Observe("printed", p)
+	pkg2, err2 := ParseRemotePackage(p)
+	verif.Assert("package-printed-form-reparses", err2 == nil)
+	verif.Assert("package-reparse-equal", pkg2 == pkg)
+	root := pkg.SourceAddr("")
+	r2, err3 := ParseRemoteSource(root.String())
+	verif.Assert("derived-printed-form-reparses", err3 == nil)
+	verif.Assert("derived-reparse-equal", r2 == root)
+}
+
 // HarnessC06Versioned: a registry source combined with a selected version (pre-release tag and
 // build metadata from the template's holes) prints to a string ParseFinalSource takes back.
 func HarnessC06Versioned() {
